@@ -873,6 +873,7 @@ def apply_ref(P, op, selfref):
             if inv == 0:
                 return True
             sc = 1 / inv
+            P.invscalar = inv       # the code computes inv_scalar and then 1 / inv_scalar in floats: both have to be exact
         P.lin = {v: (x if v in ivs else x * sc) for v, x in P.lin.items()}
         P.quad = {kk: (x if kk in iis else x * sc) for kk, x in P.quad.items()}
         if not io:
@@ -994,7 +995,7 @@ def bqm_history(ctx, r, dt, nops, lines, expect, meta, malformed_rate, script=No
             new = before.copy()
         partial = (okx is not True) and not new.same(before)
         # precision guard: cut the history before an op whose exact result does not fit the dtype
-        if not all(fits(x, MANT[dt]) for x in new.values() + P.values() + [getattr(P, 'scalar', F(1))]):
+        if not all(fits(x, MANT[dt]) for x in new.values() + P.values() + [getattr(P, 'scalar', F(1)), getattr(P, 'invscalar', F(1))]):
             ctx.tick('cut_for_precision')
             break
         # ---- model line(s)
